@@ -141,121 +141,121 @@ func cfgStores(c *Ctx, r *Report, rule string, durations, funcs bool, hooks ...b
 			}
 		}
 		stores := storesToFields(c, "", ci.tn, want)
-		frames := map[*ssa.Function]*Frame{}
+		frames := map[*ssa.Function][]*Frame{}
 		for _, st := range stores {
-			r.instance(rule, 1)
-			fname := ci.st.Field(st.field).Name()
-			id := fnID(st.fn)
-			r.funcs[id] = true
-			fr := frames[st.fn]
-			if fr == nil {
-				_, fr = analyse(c, st.fn)
-				frames[st.fn] = fr
+			if frames[st.fn] == nil {
+				frames[st.fn] = contextFrames(c, st.fn)
 			}
-			// which config field (if any) feeds the value
-			cf := map[int]bool{}
-			fieldsFeeding(st.val, conf, 0, cf, map[ssa.Value]bool{})
-			for i := range cf {
-				consumed[i] = true
-			}
-			// a configured value must be applied whenever it is set: every condition the store is
-			// control-dependent on is computed from that same configuration field and constants only
-			if len(cf) == 1 {
-				for fi := range cf {
-					if why := impureGuard(storeAt(st), conf, fi); why != "" {
-						r.fail(rule, id, fmt.Sprintf("whether ClientConfig.%s is applied to %s depends on something other than that field being set", cst.Field(fi).Name(), fname), st.pos, why, "guard-not-pure:"+cst.Field(fi).Name())
-					} else {
-						r.ok(rule, id, fmt.Sprintf("ClientConfig.%s is applied to %s under conditions on that field alone", cst.Field(fi).Name(), fname), st.pos, true)
+			for _, fr := range frames[st.fn] {
+				r.instance(rule, 1)
+				fname := ci.st.Field(st.field).Name()
+				id := fnID(st.fn)
+				r.funcs[id] = true
+				// which config field (if any) feeds the value
+				cf := map[int]bool{}
+				fieldsFeeding(st.val, conf, 0, cf, map[ssa.Value]bool{})
+				for i := range cf {
+					consumed[i] = true
+				}
+				// a configured value must be applied whenever it is set: every condition the store is
+				// control-dependent on is computed from that same configuration field and constants only
+				if len(cf) == 1 {
+					for fi := range cf {
+						if why := impureGuard(storeAt(st), conf, fi); why != "" {
+							r.fail(rule, id, fmt.Sprintf("whether ClientConfig.%s is applied to %s depends on something other than that field being set", cst.Field(fi).Name(), fname), st.pos, why, "guard-not-pure:"+cst.Field(fi).Name())
+						} else {
+							r.ok(rule, id, fmt.Sprintf("ClientConfig.%s is applied to %s under conditions on that field alone", cst.Field(fi).Name(), fname), st.pos, true)
+						}
 					}
 				}
-			}
-			if st.field == ci.hooks {
-				continue // hooks may legitimately be nil; only the plumbing above is examined
-			}
-			// an option closure storing its own argument: the caller's explicit choice
-			src := st.val
-			if u, ok := src.(*ssa.UnOp); ok {
-				src = u.X
-			}
-			if fv, ok := src.(*ssa.FreeVar); ok && st.fn.Parent() != nil {
-				r.ok(rule, id, fmt.Sprintf("%s receives the value the caller gave to the option function (%s)", fname, fv.Name()), st.pos, false)
-				continue
-			}
-			// the same for an option written as a method of a value type: the client is a parameter of
-			// the storing function and the stored value is (a conversion / field of) its receiver or
-			// another parameter
-			if fa, ok := st.instr.Addr.(*ssa.FieldAddr); ok {
-				if _, baseIsParam := fa.X.(*ssa.Parameter); baseIsParam && len(cf) == 0 {
-					v := st.val
-					for depth := 0; depth < 6; depth++ {
-						switch x := v.(type) {
-						case *ssa.Convert:
-							v = x.X
-							continue
-						case *ssa.ChangeType:
-							v = x.X
-							continue
-						case *ssa.UnOp:
-							v = x.X
-							continue
-						case *ssa.Field:
-							v = x.X
-							continue
-						case *ssa.FieldAddr:
-							v = x.X
+				if st.field == ci.hooks {
+					continue // hooks may legitimately be nil; only the plumbing above is examined
+				}
+				// an option closure storing its own argument: the caller's explicit choice
+				src := st.val
+				if u, ok := src.(*ssa.UnOp); ok {
+					src = u.X
+				}
+				if fv, ok := src.(*ssa.FreeVar); ok && st.fn.Parent() != nil {
+					r.ok(rule, id, fmt.Sprintf("%s receives the value the caller gave to the option function (%s)", fname, fv.Name()), st.pos, false)
+					continue
+				}
+				// the same for an option written as a method of a value type: the client is a parameter of
+				// the storing function and the stored value is (a conversion / field of) its receiver or
+				// another parameter
+				if fa, ok := st.instr.Addr.(*ssa.FieldAddr); ok {
+					if _, baseIsParam := fa.X.(*ssa.Parameter); baseIsParam && len(cf) == 0 {
+						v := st.val
+						for depth := 0; depth < 6; depth++ {
+							switch x := v.(type) {
+							case *ssa.Convert:
+								v = x.X
+								continue
+							case *ssa.ChangeType:
+								v = x.X
+								continue
+							case *ssa.UnOp:
+								v = x.X
+								continue
+							case *ssa.Field:
+								v = x.X
+								continue
+							case *ssa.FieldAddr:
+								v = x.X
+								continue
+							}
+							break
+						}
+						if p, isParam := v.(*ssa.Parameter); isParam && p != fa.X {
+							r.ok(rule, id, fmt.Sprintf("%s receives the value the caller gave to the option (%s)", fname, p.Name()), st.pos, false)
 							continue
 						}
-						break
-					}
-					if p, isParam := v.(*ssa.Parameter); isParam && p != fa.X {
-						r.ok(rule, id, fmt.Sprintf("%s receives the value the caller gave to the option (%s)", fname, p.Name()), st.pos, false)
-						continue
 					}
 				}
-			}
-			storeInstr := storeAt(st)
-			state := fr.blockIn[storeInstr.Block().Index]
-			if os.Getenv("MBDBG") != "" {
-				fmt.Fprintf(os.Stderr, "cfgStore %s.%s in %s cf=%v state=%s val=%s\n", spec.name, fname, st.fn.Name(), cf, state.String(), describeAV(fr.val(st.val)))
-			}
-			if len(state) == 0 {
-				r.ok(rule, id, fname+": store is unreachable", st.pos, false)
-				continue
-			}
-			if isDuration(ci.st.Field(st.field).Type()) {
-				ok := false
-				desc := ""
-				if k, isC := st.val.(*ssa.Const); isC && k.Value != nil {
-					v, _ := constant.Int64Val(k.Value)
-					ok = v >= 1
-					desc = fmt.Sprintf("constant %dns", v)
-				} else if ai, isI := fr.val(st.val).(AInt); isI {
-					ok = state.entails(atomGE(ai.a, affConst(1)))
-					desc = ai.a.String()
+				storeInstr := storeAt(st)
+				state := fr.blockIn[storeInstr.Block().Index]
+				if os.Getenv("MBDBG") != "" {
+					fmt.Fprintf(os.Stderr, "cfgStore %s.%s in %s cf=%v state=%s val=%s\n", spec.name, fname, st.fn.Name(), cf, state.String(), describeAV(fr.val(st.val)))
 				}
-				if ok {
-					r.ok(rule, id, fmt.Sprintf("%s is only ever set to a positive duration here (%s >= 1ns proven at the store)", fname, desc), st.pos, true)
-				} else {
-					r.fail(rule, id, fmt.Sprintf("%s can be set to a zero/negative or unrelated duration: %s is not proven positive where it is stored", fname, desc), st.pos, truncate(state.String(), 200), "timeout-not-positive:"+fname)
+				if len(state) == 0 {
+					r.ok(rule, id, fname+": store is unreachable", st.pos, false)
+					continue
 				}
-				// role pairing
-				for i := range cf {
-					cn := cst.Field(i).Name()
-					role := roles[st.field]
-					if role != "" && strings.HasPrefix(strings.ToLower(cn), role) {
-						r.ok(rule, id, fmt.Sprintf("ClientConfig.%s feeds the client's %s timeout (%s)", cn, role, fname), st.pos, true)
+				if isDuration(ci.st.Field(st.field).Type()) {
+					ok := false
+					desc := ""
+					if k, isC := st.val.(*ssa.Const); isC && k.Value != nil {
+						v, _ := constant.Int64Val(k.Value)
+						ok = v >= 1
+						desc = fmt.Sprintf("constant %dns", v)
+					} else if ai, isI := fr.val(st.val).(AInt); isI {
+						ok = state.entails(atomGE(ai.a, affConst(1)))
+						desc = ai.a.String()
+					}
+					if ok {
+						r.ok(rule, id, fmt.Sprintf("%s is only ever set to a positive duration here (%s >= 1ns proven at the store)", fname, desc), st.pos, true)
 					} else {
-						r.fail(rule, id, fmt.Sprintf("ClientConfig.%s is stored into %s, which the client uses as its %s timeout", cn, fname, role), st.pos, "", "timeout-role:"+cn+"->"+fname)
+						r.fail(rule, id, fmt.Sprintf("%s can be set to a zero/negative or unrelated duration: %s is not proven positive where it is stored", fname, desc), st.pos, truncate(state.String(), 200), "timeout-not-positive:"+fname)
 					}
+					// role pairing
+					for i := range cf {
+						cn := cst.Field(i).Name()
+						role := roles[st.field]
+						if role != "" && strings.HasPrefix(strings.ToLower(cn), role) {
+							r.ok(rule, id, fmt.Sprintf("ClientConfig.%s feeds the client's %s timeout (%s)", cn, role, fname), st.pos, true)
+						} else {
+							r.fail(rule, id, fmt.Sprintf("ClientConfig.%s is stored into %s, which the client uses as its %s timeout", cn, fname, role), st.pos, "", "timeout-role:"+cn+"->"+fname)
+						}
+					}
+					continue
 				}
-				continue
-			}
-			// function field
-			nf := fr.nilness(fr.val(st.val))
-			if state.entailsForm(formNot(nf)) {
-				r.ok(rule, id, fname+" is only ever set to a non-nil function here", st.pos, true)
-			} else {
-				r.fail(rule, id, fname+" can be overwritten with nil (the next exchange would call a nil function)", st.pos, describeAV(fr.val(st.val)), "nil-func:"+fname)
+				// function field
+				nf := fr.nilness(fr.val(st.val))
+				if state.entailsForm(formNot(nf)) {
+					r.ok(rule, id, fname+" is only ever set to a non-nil function here", st.pos, true)
+				} else {
+					r.fail(rule, id, fname+" can be overwritten with nil (the next exchange would call a nil function)", st.pos, describeAV(fr.val(st.val)), "nil-func:"+fname)
+				}
 			}
 		}
 	}
@@ -512,13 +512,8 @@ func fieldAssertInvariants(c *Ctx) []assertInvariant {
 				okAll = false
 				break
 			}
-			ex, isEx := s.val.(*ssa.Extract)
-			if !isEx || ex.Index != 1 {
-				okAll = false
-				break
-			}
-			ta, isTA := ex.Tuple.(*ssa.TypeAssert)
-			if !isTA || !ta.CommaOk {
+			ta := assertBehind(s.val)
+			if ta == nil {
 				okAll = false
 				break
 			}
@@ -630,4 +625,107 @@ func impureGuard(in ssa.Instruction, conf types.Type, fi int) string {
 		}
 	}
 	return ""
+}
+
+// contextFrames returns the frames in which the stores of fn are to be judged: fn analysed on
+// its own, or — for an unexported helper that is only called statically from its own package
+// and takes parameters (a shared "apply configuration" function given the defaults as
+// arguments) — the frames of fn inlined under each of its callers, where the arguments are known.
+func contextFrames(c *Ctx, fn *ssa.Function) []*Frame {
+	standalone := func() []*Frame {
+		_, fr := analyse(c, fn)
+		return []*Frame{fr}
+	}
+	if fn.Parent() != nil || fn.Object() == nil || fn.Object().Exported() || len(fn.Params) == 0 {
+		return standalone()
+	}
+	node := c.callGraph().Nodes[fn]
+	if node == nil || len(node.In) == 0 {
+		return standalone()
+	}
+	var callers []*ssa.Function
+	seen := map[*ssa.Function]bool{}
+	for _, e := range node.In {
+		call, ok := e.Site.(*ssa.Call)
+		if !ok || call.Common().StaticCallee() != fn || e.Caller.Func.Pkg != fn.Pkg {
+			return standalone()
+		}
+		if !seen[e.Caller.Func] {
+			seen[e.Caller.Func] = true
+			callers = append(callers, e.Caller.Func)
+		}
+	}
+	sort.Slice(callers, func(i, j int) bool { return callers[i].String() < callers[j].String() })
+	var out []*Frame
+	var collect func(f *Frame)
+	collect = func(f *Frame) {
+		for _, ch := range f.child {
+			if ch.fn == fn {
+				out = append(out, ch)
+			} else {
+				collect(ch)
+			}
+		}
+	}
+	for _, cf := range callers {
+		_, fr := analyse(c, cf)
+		collect(fr)
+	}
+	if len(out) == 0 {
+		return standalone()
+	}
+	return out
+}
+
+// assertBehind: the bool value v is "x implements A": the ok result of a comma-ok assertion
+// x.(A), or a phi of the constants true/false in which true arrives only from blocks
+// dominated by the ok-branch of such an assertion and false from everywhere else (the form a
+// single-case type switch or an if/else assignment takes).
+func assertBehind(v ssa.Value) *ssa.TypeAssert {
+	if ex, ok := v.(*ssa.Extract); ok && ex.Index == 1 {
+		if ta, ok := ex.Tuple.(*ssa.TypeAssert); ok && ta.CommaOk {
+			return ta
+		}
+		return nil
+	}
+	ph, ok := v.(*ssa.Phi)
+	if !ok {
+		return nil
+	}
+	var found *ssa.TypeAssert
+	for i, e := range ph.Edges {
+		k, isC := e.(*ssa.Const)
+		if !isC || k.Value == nil {
+			return nil
+		}
+		if k.Value.String() != "true" {
+			continue
+		}
+		// the predecessor must be reached only through the true branch of `if ok`
+		pred := ph.Block().Preds[i]
+		var ta *ssa.TypeAssert
+		for d := pred; d != nil; d = d.Idom() {
+			id := d.Idom()
+			if id == nil {
+				break
+			}
+			iff, isIf := id.Instrs[len(id.Instrs)-1].(*ssa.If)
+			if !isIf || !(id.Succs[0] == d || id.Succs[0].Dominates(d)) || id.Succs[1] == d || id.Succs[1].Dominates(d) {
+				continue
+			}
+			if ex, ok := iff.Cond.(*ssa.Extract); ok && ex.Index == 1 {
+				if t, ok := ex.Tuple.(*ssa.TypeAssert); ok && t.CommaOk {
+					ta = t
+					break
+				}
+			}
+		}
+		if ta == nil || (found != nil && found != ta) {
+			return nil
+		}
+		found = ta
+	}
+	// every false edge must not be dominated by the ok-branch (otherwise the flag under-reports,
+	// which is harmless) — no further condition needed for soundness of "true => implements"
+	return found
 }
